@@ -13,7 +13,7 @@ import (
 	"nvharness/lib/rng"
 )
 
-var shardCounts = []uint64{1, 2, 3, 64, 73, 211, 1000}
+var shardCounts = []uint64{1, 2, 3, 4, 6, 9, 10, 64, 73, 211, 1000}
 
 var intTypes = []struct {
 	ty     string
@@ -150,12 +150,16 @@ func fixedCases() []corr.Case {
 		k5, k9 := keyToken("i64", "5"), keyToken("i64", "-9")
 		out = append(out,
 			mk("fixed-locks", "locks tklock-i64 73 "+rt, "acq 0 ws "+k5, "acq 1 w "+k5, "rel 0 w "+k5, "rel 1 ws "+k5, "acq 2 rs "+k5+","+k9, "acq 3 r "+k9, "acq 0 w "+k9, "rel 2 r "+k9, "rel 3 rs "+k9, "rel 2 rs "+k5, "rel 0 ws "+k9),
+			mk("fixed-locks", "locks tklock-i64 6 "+rt, "acq 0 rs "+k5+","+k9+","+k5, "rel 0 r "+k5, "acq 1 w "+k5, "rel 0 rs "+k5+","+k9, "rel 1 w "+k5, "acq 2 ws "+k5+","+k5, "acq 2 rs "+k9+","+k9, "rel 2 rs "+k9+","+k9),
 			mk("fixed-locks", "locks tklock-str 3 "+rt, "acq 0 w "+keyToken("str", "61"), "acq 1 rs "+keyToken("str", "61")+","+keyToken("str", "62"), "rel 0 ws "+keyToken("str", "61"), "rel 1 r "+keyToken("str", "61"), "rel 1 r "+keyToken("str", "62")),
 			mk("fixed-locks", "locks klock 2 "+rt, "acq 0 r "+keyToken("int", "7"), "acq 1 r "+keyToken("int", "7"), "acq 2 w "+keyToken("int", "7"), "rel 0 r "+keyToken("int", "7"), "rel 1 r "+keyToken("int", "7"), "rel 2 w "+keyToken("int", "7")),
 			mk("fixed-locks", "locks semap 73 "+rt, "acq 0 w "+keyToken("str", "6b"), "acq 1 r "+keyToken("str", "6b"), "rel 0 w "+keyToken("str", "6b"), "acq 2 r "+keyToken("str", "6b"), "acq 3 w "+keyToken("str", "6b"), "rel 1 r "+keyToken("str", "6b"), "rel 2 r "+keyToken("str", "6b"), "rel 3 w "+keyToken("str", "6b")),
 		)
 		a, b, c := keyToken("int", "1"), keyToken("int", "2"), keyToken("int", "3")
 		for _, kd := range []string{"lru", "tlru"} {
+			for _, sh := range []string{"1", "2", "3"} {
+				out = append(out, mk("fixed-wide-maxcap", "wl "+kd+" 9223372036854775807 "+sh+" "+rt, "set "+a+" 1 1", "set "+b+" 2 1", "get "+a, "exist "+b))
+			}
 			out = append(out, mk("fixed-wide-lru", "wl "+kd+" 1 1 "+rt, "set "+a+" 1 1", "set "+b+" 2 1", "exist "+a, "peek "+a, "set "+c+" 3 1", "get "+a, "get "+b, "exist "+c, "del "+b, "del "+c, "get "+c))
 		}
 	}
@@ -164,7 +168,7 @@ func fixedCases() []corr.Case {
 
 // ---- generators of the sharded-vs-unsharded classes
 
-var primes = []uint64{1, 2, 3, 73}
+var primes = []uint64{1, 2, 3, 73, 4, 6, 9} // 1, primes, and composite counts (a shard count need not be prime)
 
 // collidingInts returns integer keys that share shards under the given routing (a few shards, several keys each).
 func collidingInts(r *rng.R, n uint64, xhash bool) []int {
@@ -208,7 +212,11 @@ func genWideLRU(r *rng.R, m int) corr.Case {
 	}
 	kd := r.Pick("lru", "lru", "tlru")
 	per := r.Range(1, 3)
-	capacity := int(n)*(per-1) + r.Intn(int(n))
+	capacity := int64(n)*int64(per-1) + int64(r.Intn(int(n)))
+	if r.Chance(1, 8) {
+		// capacities next to MaxInt64: the per-shard share must not wrap around
+		capacity = math.MaxInt64 - int64(r.Intn(4))
+	}
 	keys := collidingInts(r, n, xhash)
 	lines := []string{fmt.Sprintf("wl %s %d %d %s", kd, capacity, n, rt)}
 	for j := 0; j < m; j++ {
@@ -302,16 +310,16 @@ func genLocks(r *rng.R, m int) corr.Case {
 			}
 			lines = append(lines, fmt.Sprintf("rel %d %s %s", x.t, api(x.write, multi), strings.Join(ks, ",")))
 			var rest []h
+			left := map[string]int{}
+			for _, k := range ks {
+				left[k]++
+			}
 			for _, y := range holds {
-				drop := false
-				for _, k := range ks {
-					if y.t == x.t && y.write == x.write && y.k == k {
-						drop = true
-					}
+				if y.t == x.t && y.write == x.write && left[y.k] > 0 {
+					left[y.k]-- // one hold per mention
+					continue
 				}
-				if !drop {
-					rest = append(rest, y)
-				}
+				rest = append(rest, y)
 			}
 			holds = rest
 			if wait != nil {
@@ -339,6 +347,9 @@ func genLocks(r *rng.R, m int) corr.Case {
 		ks := []string{pool[r.Intn(len(pool))]}
 		if multi && r.Chance(1, 2) {
 			ks = append([]string{}, pool[:r.Range(1, len(pool))]...)
+		}
+		if multi && !write && r.Chance(1, 3) {
+			ks = append(ks, ks[r.Intn(len(ks))]) // a READ list may name a key twice: it is then held twice
 		}
 		bad := false
 		for _, x := range holds {
@@ -385,6 +396,9 @@ func genCase(r *rng.R, tier string, i int) corr.Case {
 		return genWideLRU(r, m)
 	case cls >= 76 && cls < 92: // lock groups against one unsharded locker, all APIs mixed on the same keys
 		return genLocks(r, m)
+	case cls == 92: // concurrent first users of a fresh router / xxhash container (child process)
+		big := []uint64{73, 1000, 4096, 50000, 200000, 1 << 20}
+		return corr.Case{Tag: "first-use", Lines: []string{"reset", fmt.Sprintf("firstuse %d %d %d", big[r.Intn(len(big))], r.Range(5, 30), r.Range(2, 8))}}
 	case cls < 25: // routing of keys of every type
 		lines := []string{fmt.Sprintf("remap %d", n)}
 		for j := 0; j < m; j++ {
